@@ -20,7 +20,9 @@ def gen_leaf(rng):
         key = rng.choice(VKEYS)
         if rng.random() < .15:
             k = rng.randint(1, 3)
-            lits = [rng.choice([v for v in VLITS if key != 'python_version' or v.count('.') <= 1]) for _ in range(k)]
+            # members with pre / post / dev / epoch decorations as well: lists match on the release segments only
+            pool = VLITS + (VDECO if rng.random() < .35 else [])
+            lits = [rng.choice([v for v in pool if key != 'python_version' or len(pep440.release_of(v)) <= 2]) for _ in range(k)]
             return ('verin', key, lits, rng.random() < .5)
         if rng.random() < .12:
             lit = rng.choice([v for v in VLITS if v.count('.') <= (1 if key == 'python_version' else 3)])
@@ -236,10 +238,21 @@ def run(ctx):
                          'evaluate_optional_environment(Some) / Requirement::evaluate_markers must agree with an independent Python reading of the tree on boundary environments, '
                          'with the extracted sem508 of the Coq spec, and with the extracted model diagram; non-trivial = distinct trees whose diagram is not constant')
     n_trees = 250 if quick else 2500
-    for _ in range(n_trees):
-        a = gen_ast(ctx.rng, ctx.rng.choice([0, 1, 1, 2, 2, 3]))
+    # boundary battery: every ordered pair of comparisons of one key against ONE value (ranges that touch at a bound with every
+    # combination of inclusive / exclusive ends), under and / or, and lists with decorated members: in every run
+    battery = []
+    for key, kind, val in (('python_full_version', 'ver', '3.8.1'), ('implementation_version', 'ver', '3.9'), ('os_name', 'str', 'posix')):
+        for o1 in ('<', '<=', '>', '>=', '==', '!='):
+            for o2 in ('<', '<=', '>', '>=', '==', '!='):
+                battery.append((ctx.rng.choice(['and', 'or']), (kind, key, o1, val), (kind, key, o2, val)))
+    for key in ('python_full_version', 'implementation_version'):
+        for lits in (['3.9.0rc1', '3.10.2'], ['3.8.5', '3.9.0b2'], ['3.11.4.post1'], ['1!3.8', '3.8.dev1']):
+            for neg in (False, True):
+                battery.append(('verin', key, lits, neg))
+    for bi in range(len(battery) + n_trees):
+        a = battery[bi] if bi < len(battery) else gen_ast(ctx.rng, ctx.rng.choice([0, 1, 1, 2, 2, 3]))
         texts = []
-        for i in range(3):
+        for i in range(3 if bi >= len(battery) else 1):
             ALLOW_DEPRECATED[0] = i > 0
             t = render(ctx.rng, a)
             if t is not None:
